@@ -12,7 +12,7 @@ GUARD = "SC_VERIF_HOOKS"
 CFGS = {
     "plain": dict(cc="gcc", cxx="g++", flags="-D%s" % GUARD, btype="RelWithDebInfo", ldflags=""),
     "asan": dict(cc="clang", cxx="clang++",
-                 flags="-D%s -fsanitize=address,undefined -fno-omit-frame-pointer -fno-sanitize-recover=undefined -O1 -g" % GUARD,
+                 flags="-D%s -fsanitize=address,undefined -fno-sanitize=function,vptr -fno-omit-frame-pointer -fno-sanitize-recover=undefined -O1 -g" % GUARD,
                  btype="None", ldflags="-fsanitize=address,undefined"),
 }
 
